@@ -120,7 +120,7 @@ def cases(tier, rng):
     triples7 = list(itertools.product(REL7, repeat=3))
     nblk = 4 if tier == "quick" else 14
     per = (len(triples7) + nblk - 1) // nblk
-    layouts = 1 if tier == "quick" else 4
+    layouts = 1 if tier == "quick" else 8
     for lay in range(layouts):
         for b in range(nblk):
             out.append(
@@ -131,7 +131,7 @@ def cases(tier, rng):
                     "layout_seed": int(rng.integers(1 << 30)),
                 }
             )
-    nplane = 4 if tier == "quick" else 90
+    nplane = 4 if tier == "quick" else 200
     for i in range(nplane):
         out.append(
             {
@@ -141,7 +141,7 @@ def cases(tier, rng):
                 "layout_seed": int(rng.integers(1 << 30)),
             }
         )
-    ntwo = 2 if tier == "quick" else 30
+    ntwo = 2 if tier == "quick" else 80
     for i in range(ntwo):
         out.append(
             {"kind": "two_devices", "n": 12, "device_kind": PLANE_DEVICE_KINDS[i % len(PLANE_DEVICE_KINDS)], "layout_seed": int(rng.integers(1 << 30))}
